@@ -175,7 +175,8 @@ func (f *Filter) defaultJSMappingCallback(isolated *sourcemap.Mapping) {
 	isolated.OriginalFile = f.normalizePath(isolated.OriginalFile)
 
 	// Adjust line and column numbers to account for existing offset.
-	if isolated.GeneratedLine == 0 {
+	// Decoded line numbers start at 1.
+	if isolated.GeneratedLine == 1 {
 		isolated.GeneratedColumn += f.column
 	}
 	isolated.GeneratedLine += f.line
